@@ -55,7 +55,7 @@ def gen_dyn_universe(rng: random.Random, ideal_origins=False, name_mode="unique"
         "links": [gen_link_spec(rng, i, x, empty_vsl=False) for i, x in enumerate(names("L", nl))],
         "origins": [gen_origin_spec(rng, x, kinds) for x in names("O", no)],
         "dests": [gen_dest_spec(rng, x) for x in names("D", nd)],
-        "junk": [],
+        "junk": ["str"],
     }
 
 
@@ -74,8 +74,32 @@ def canonical_ops(topo: dict) -> list:
     return ops
 
 
+def lazy_items(items, fault):
+    """Caller-side lazy iterable; with fault {"kind": "iter_raise", "at": k} it raises SimIOError
+    instead of delivering item k."""
+    for i, it in enumerate(items):
+        if fault and fault.get("kind") == "iter_raise" and fault["at"] == i:
+            raise core.SimIOError(f"injected at item {i}")
+        yield it
+    if fault and fault.get("kind") == "iter_raise" and fault["at"] >= len(items):
+        raise core.SimIOError("injected at end of iterable")
+
+
 def apply_build_op(net, U: Universe, op: dict):
     k = op["op"]
+    if op.get("fault"):
+        f = op["fault"]
+        if k == "add_nodes":
+            return net.add_nodes(lazy_items([U.obj(n) for n in op["ns"]], f))
+        if k == "add_links":
+            return net.add_links(lazy_items([(U.obj(u), U.obj(l), U.obj(v)) for u, l, v in op["items"]], f))
+        if k == "add_path":
+            kw = {}
+            if op.get("origin") is not None:
+                kw["origin"] = U.obj(op["origin"])
+            if op.get("destination") is not None:
+                kw["destination"] = U.obj(op["destination"])
+            return net.add_path(lazy_items([U.obj(p) for p in op["path"]], f), **kw)
     if k == "add_node":
         net.add_node(U.obj(op["n"]))
     elif k == "add_nodes":
@@ -99,7 +123,30 @@ def apply_build_op(net, U: Universe, op: dict):
         raise core.HarnessError(f"not a build op: {k}")
 
 
-def build(uspec: dict, ops: list, transform=None):
+def complete_missing(net, U: Universe, op: dict):
+    """The simulated caller after a failed add_path that is not re-issued as a whole: it looks
+    at the graph (public Network.graph) and adds, with single calls, whatever part of the
+    intended path is not there.  How much a failed call leaves behind is not promised by the
+    library, so nothing is assumed about it."""
+    from .refnet import effects
+
+    intended = dict(op, path=[p for p in op["path"] if p != op.get("tail")], destination=None)
+    G = net.graph
+    for e in effects(intended):
+        if e[0] == "node":
+            if U.obj(e[1]) not in G:
+                net.add_node(U.obj(e[1]))
+        elif e[0] == "edge":
+            u, l, v = U.obj(e[1]), U.obj(e[2]), U.obj(e[3])
+            if not (G.has_edge(u, v) and G[u][v].get("link") is l):
+                net.add_link(u, l, v)
+        elif e[0] == "origin":
+            n = U.obj(e[2])
+            if not (n in G and G.nodes[n].get("origin") is U.obj(e[1])):
+                net.add_origin(U.obj(e[1]), n)
+
+
+def build(uspec: dict, ops: list, transform=None, on_early_step=None):
     """Fresh objects + fresh network.  ``transform(U)`` may adjust element parameters
     (renaming, turn-rate scaling) before anything is built."""
     import sym_metanet as M
@@ -109,7 +156,18 @@ def build(uspec: dict, ops: list, transform=None):
         transform(U)
     net = M.Network(name="net")
     for op in ops:
-        apply_build_op(net, U, op)
+        if op.get("fault") or op.get("malformed"):
+            try:  # a call that is expected to fail half-way and is retried by a later op
+                apply_build_op(net, U, op)
+            except Exception:
+                pass
+            if op.get("counts"):
+                complete_missing(net, U, op)
+        elif op["op"] == "early_step":
+            if on_early_step is not None:
+                on_early_step(U, net)
+        else:
+            apply_build_op(net, U, op)
     return U, net
 
 
@@ -119,6 +177,10 @@ def topo_of_ops(ops: list) -> dict:
 
     m = RefNet()
     for op in ops:
+        if op["op"] == "early_step" or ((op.get("fault") or op.get("malformed")) and not op.get("counts")):
+            continue  # partial effects of failed calls are a subset of those of their retries
+        if op.get("counts"):  # a failed add_path that delivered its whole well-formed part and is NOT retried
+            op = dict(op, path=[p for p in op["path"] if p != op.get("tail")], destination=None)
         for e in effects(op):
             m.apply_effect(e)
     return {
